@@ -83,7 +83,10 @@ register("C01", {
             "all response framings, early closes, partial reads, network faults, "
             "cancellations; asyncio fifo+shuffle and pre-emptive threads); a run is "
             "non-trivial if >=2 callers ran or a fault fired; distinct = distinct "
-            "SHA-256 of the full event log",
+            "SHA-256 of the full event log; plus a sweep of every cancellation point of one "
+            "caller on a shared HTTP/2 connection whose companions keep using it; oracles: "
+            "token echo, exchange order per HTTP/1.1 wire, and 'the request each server "
+            "decoded is its caller's own' (method, target, pseudo-headers, header fields)",
     "assumptions": ["peers are executable models (independent HTTP/1.1 parser, h2 in "
                     "server role + raw frame ledger)", "seam L1: simulated network backend "
                     "behind the public network_backend= argument"],
